@@ -246,6 +246,10 @@ func (dm *DMap) setLRUEvictionStats(e *env) error {
 	}
 
 	if dm.config.maxInuse > 0 {
+		// The MaxKeys branch may have evicted a key: judge MaxInuse on the fragment as it is now.
+		// With the numbers taken before that eviction a fragment which held a single key was
+		// asked for a second victim, and the Put failed with "nothing found to expire with LRU".
+		st = e.fragment.storage.Stats()
 		// MaxInuse controls maximum in-use memory of partitions on this node.
 		// We need ownedPartitionCount property because every partition
 		// manages itself independently. So if you set MaxInuse=70M(in bytes) and
